@@ -228,6 +228,9 @@ inductive SsOp where
   | provide (u d0 d1 : Nat)
   | swap (u dir off : Nat)
   | withdraw (u amt : Nat)
+  /-- `CollectProtocolFees {}` (permissionless): pending entries above the collectable minimum are sent
+      to the fee collector (not one of the users) and reset -/
+  | collect
 deriving Repr, DecidableEq
 
 def SsSt.user (s : SsSt) (u : Nat) : SsUser := s.users.getD u { a := 0, b := 0, lp := 0 }
@@ -317,10 +320,25 @@ def ssWithdraw (s : SsSt) (u amt : Nat) : Res SsSt := do
   pure ({ s with bal0 := s.bal0 - x0, bal1 := s.bal1 - x1, sup := s.sup - amt }.setUser u
           { a := usr.a + x0, b := usr.b + x1, lp := usr.lp - amt })
 
+/-- one asset's side of `collect_protocol_fees` -/
+def ssCollectSide (bal pend : Nat) : Res (Nat × Nat) :=
+  if pend > Gen.PAIR_MINIMUM_COLLECTABLE_BALANCE then do
+    let b ← csub bal pend
+    pure (b, 0)
+  else pure (bal, pend)
+
+/-- `collect_protocol_fees`: the all-time ledger (not part of this state) keeps growing, the pending one is
+    what every later operation nets out of the balances -/
+def ssCollect (s : SsSt) : Res SsSt := do
+  let x0 ← ssCollectSide s.bal0 s.pend0
+  let x1 ← ssCollectSide s.bal1 s.pend1
+  pure { s with bal0 := x0.1, pend0 := x0.2, bal1 := x1.1, pend1 := x1.2 }
+
 def ssStep (cfg : SsCfg) (s : SsSt) : SsOp → Res SsSt
   | .provide u d0 d1 => ssProvide cfg s u d0 d1
   | .swap u dir off => ssSwapOp cfg s u dir off
   | .withdraw u amt => ssWithdraw s u amt
+  | .collect => ssCollect s
 
 /-- run a history; a failed operation leaves the state untouched -/
 def ssReach (cfg : SsCfg) (s : SsSt) : List SsOp → SsSt
